@@ -55,6 +55,7 @@ class Runner:
             capture_output=True,
             text=True,
             timeout=timeout,
+            env=dict(os.environ, OCAMLRUNPARAM="s=16M,o=400"),  # large minor heap: traces are long-lived, intermediates are not
         )
         out = p.stdout.split("\n")
         if out and out[-1] == "":
